@@ -104,6 +104,14 @@ func runOp3(c *hlib.Ctx, st *state3, m *model3d.Mesh, forced int) result3 {
 	if forced >= 0 {
 		op = forced
 	}
+	// a kind that has timed out once is not run again (every timeout leaves a spinning goroutine)
+	kindOf := []string{"decimate3", "decimate3", "elimcoplanar3", "elimcoplanar3", "elimedges3", "flip3", "subdivedges3",
+		"subdivedges3", "loop3", "subdivider3", "blur3", "blur3", "smooth3", "arap3", "flatten3", "flatten3"}
+	if timeouts[kindOf[op]] >= 1 {
+		c.Stat("not-run-after-a-timeout:"+kindOf[op], 1)
+		r.skipped = true
+		return r
+	}
 	if (op >= 6 && op <= 9) && overlapping3(m) {
 		// points created on distinct edges/faces would coincide (folded or flattened geometry):
 		// the id soup of the output would not be the combinatorial subdivision; not an input
